@@ -30,7 +30,7 @@ def semantic_valid(rp, x):
             return routes_valid(rp, x, require_routes=pos)
         if name.startswith("Sequence"):
             from props.seqlib import walk_valid
-            if rp.max_sequence_length < 3 or (0, 0) not in rp.arcs:
+            if rp.max_sequence_length < 3:
                 return None, ""
             return walk_valid(rp, x)
         # path-based: the selected stored routes visit every customer exactly once
